@@ -373,3 +373,12 @@ def clock_order(trace, viol):
         return False
     st = viol.get("step")
     return isinstance(st, int) and any((o.get("dt", 1) or 0) <= 0 for o in _ops(trace)[:st + 1] if o.get("op") == "edit")
+
+
+@predicate("failed_head_lookup_skips_precommit")
+def failed_head_lookup_skips_precommit(trace, viol):
+    """an internal 'git rev-parse <branch/HEAD>' that fails with status 1 is read as "unborn branch":
+    the pre-commit checkpoint then runs against the wrong working log and the commit goes ahead"""
+    f = trace.get("fault") or (viol.get("detail") or {}).get("fault") or {}
+    return f.get("family") == "git" and "rev-parse" in (f.get("argv") or []) and \
+        (viol.get("class") or "").startswith("attribution_invented_after_fault")
